@@ -2,6 +2,7 @@ import Xp.Proofs.C07
 import Xp.Proofs.C07Hist
 import Xp.Proofs.C07Rev
 import Xp.Proofs.C07World
+import Xp.Proofs.C07Meta
 /-
 C07 — claim and XR exchange exactly the fields each side owns.
 
@@ -800,5 +801,340 @@ example :
     (syncSSAW wcfg "g" { inj := w.inj } d27Stored.cm d27Stored.cmV d27Stored.xr d27Stored).err = "api:forbidden" ∧
     extName (syncSSAW wcfg "g" { inj := w.inj } d27Stored.cm d27Stored.cmV d27Stored.xr d27Stored).srv.xr = "xr-new" := by
   decide
+
+/-! ### regenerated call skeletons (tie to the source, DESIGN section 11)
+
+For every Go function the model mirrors: the ordered list of every call it makes, extracted
+from the current tree on every run (harness/main/c07_dump.go → Xp.Gen.c07Skel…), equals the
+skeleton the model was written against (Xp/Model/C07Skel.lean, one entry per call with the
+model step that mirrors it). -/
+
+/-- `ServerSideCompositeSyncer.Sync` -/
+theorem skeleton_ssa_sync : Xp.Gen.c07SkelSsaSync = skelSsaSync := by decide
+
+/-- `ClientSideCompositeSyncer.Sync` -/
+theorem skeleton_csa_sync : Xp.Gen.c07SkelCsaSync = skelCsaSync := by decide
+
+/-- `NewClientSideCompositeSyncer`: the applicator is crossplane-runtime's APIPatchingApplicator -/
+theorem skeleton_new_csa : Xp.Gen.c07SkelNewCsa = skelNewCsa := by decide
+
+/-- crossplane-runtime's `APIPatchingApplicator.Apply`, in the module version go.mod requires
+(the client-side syncer's Apply; `csaApplyW` mirrors it) -/
+theorem skeleton_runtime_apply : Xp.Gen.c07SkelRuntimeApply = skelRuntimeApply := by decide
+
+/-- `PatchingManagedFieldsUpgrader.Upgrade` -/
+theorem skeleton_upgrade : Xp.Gen.c07SkelUpgrade = skelUpgrade := by decide
+
+/-- `withoutReservedK8sEntries`: calls and statement shape -/
+theorem skeleton_without_reserved :
+    Xp.Gen.c07SkelWithoutReserved = skelWithoutReserved ∧ Xp.Gen.c07ShapeWithoutReserved = shapeWithoutReserved := by
+  decide
+
+/-- `withoutKeys` makes no calls: its statement shape is the regenerated fact -/
+theorem skeleton_without_keys :
+    Xp.Gen.c07SkelWithoutKeys = skelWithoutKeys ∧ Xp.Gen.c07ShapeWithoutKeys = shapeWithoutKeys := by decide
+
+/-- `merge` (object.go) -/
+theorem skeleton_merge : Xp.Gen.c07SkelMerge = skelMerge := by decide
+
+/-- `xcrd.GetPropFields` -/
+theorem skeleton_get_prop_fields :
+    Xp.Gen.c07SkelGetPropFields = skelGetPropFields ∧ Xp.Gen.c07ShapeGetPropFields = shapeGetPropFields := by decide
+
+/-- the constants, tables and option values the two `Sync`s refer to (which update policy
+gates which direction, the only mergo option, the apply options), in source order -/
+theorem skeleton_refs :
+    Xp.Gen.c07RefsSsaSync = refsSsaSync ∧ Xp.Gen.c07RefsCsaSync = refsCsaSync := by decide
+
+/-- The API calls of the declared skeletons ARE the model's writes: on a state on which every
+write happens, the writes of `syncSSA` / `syncCSA`, in order, are the client calls of the
+declared (= regenerated) skeleton, in order. -/
+theorem skeleton_api_calls_are_model_writes :
+    (syncSSA wcfg "g" skelStateSSA).writes.map (Write.verb true) = skelSsaSync.filter isClientCall ∧
+    (syncCSA wcfg "c-x" skelStateCSA).writes.map (Write.verb false) = skelCsaSync.filter isClientCall := by
+  decide
+
+/-! ### the reserved-key filter -/
+
+/-- The literals of `withoutReservedK8sEntries` in the current tree: it splits at one
+one-character separator and tests exactly these suffixes (the model's `reserved` is a
+function of these regenerated tables). -/
+theorem reserved_tables :
+    Xp.Gen.c07ReservedSeparators.map String.toList = [[reservedSep]] ∧ reservedSep = '/' ∧
+    Xp.Gen.c07ReservedSuffixes = ["kubernetes.io", "k8s.io"] := by decide
+
+/-- **Which keys are reserved**, stated without the tables: `k` is reserved iff it is
+`p ++ r` where `p` contains no "/", `r` is empty or starts with "/", and `p` ends in
+`kubernetes.io` or `k8s.io`. (Suffix, not label-domain match: `xkubernetes.io/a` is reserved,
+`kubernetes.io.x/a` and `a/kubernetes.io` are not.) -/
+theorem reserved_iff (k : String) :
+    reserved k = true ↔
+      ∃ p r, k.toList = p ++ r ∧ '/' ∉ p ∧ (r = [] ∨ r.head? = some '/') ∧
+        ("kubernetes.io".toList <:+ p ∨ "k8s.io".toList <:+ p) := by
+  rw [reserved_eq]
+  simp only [Bool.or_eq_true, List.isSuffixOf_iff_suffix]
+  constructor
+  · intro h
+    exact ⟨_, _, (List.takeWhile_append_dropWhile (p := (· != '/')) (l := k.toList)).symm,
+      not_mem_takeWhile_ne '/' _, dropWhile_ne_head '/' _, h⟩
+  · rintro ⟨p, r, hk, hp, hr, hs⟩
+    rw [hk, takeWhile_ne_append '/' p r hp hr]
+    exact hs
+
+example : reserved "kubectl.kubernetes.io/last-applied-configuration" = true ∧ reserved "xkubernetes.io/a" = true ∧
+    reserved "k8s.io" = true ∧ reserved "kubernetes.io.x/a" = false ∧ reserved "a/kubernetes.io" = false ∧
+    reserved "K8s.io/x" = false ∧ reserved "crossplane.io/external-name" = false := by decide
+
+/-! ### labels and annotations: which cross, in which direction
+
+claim → XR: `claim_to_xr_meta`, `claim_to_xr_meta_csa` above (every non-reserved label and
+annotation, the two claim labels; the XR's existing external name wins).
+XR → claim: nothing but the external name (below).
+Reserved keys: never cross, and a reserved label / annotation the XR holds is never changed
+or removed by a sync, in any history (below). -/
+
+/-- **XR → claim, labels and annotations, server-side syncer**: every claim write (Update,
+Status().Update) and the stored claim afterwards carry the claim's own name and labels and
+its own annotations, except that the external name is the XR's when the XR has one. No
+other label or annotation of the XR reaches the claim. -/
+theorem meta_xr_to_claim (c : Cfg) (gen : String) (s : St) (cs : AL J) (h : s.cm.spec = some (.obj cs)) :
+    (∀ w ∈ (syncSSA c gen s).writes, w.isXR = false → ClaimMetaOf s.cm (extName s.xr) w.body) ∧
+    ClaimMetaOf s.cm (extName s.xr) (syncSSA c gen s).st.cm :=
+  syncSSA_claim_meta c gen s cs h
+
+/-- **XR → claim, labels and annotations, client-side syncer**: the same, the external name
+being that of the XR as applied (its first two claim writes precede the copy and carry the
+claim's metadata unchanged). -/
+theorem meta_xr_to_claim_csa (c : Cfg) (gen : String) (s : St) (cs : AL J) (h : s.cm.spec = some (.obj cs)) :
+    let en := extName (some (csaApplied c gen s cs))
+    (∀ w ∈ (syncCSA c gen s).writes, w.isXR = false →
+      ClaimMetaOf s.cm "" w.body ∨ ClaimMetaOf s.cm en w.body) ∧
+    (ClaimMetaOf s.cm "" (syncCSA c gen s).st.cm ∨ ClaimMetaOf s.cm en (syncCSA c gen s).st.cm) ∧
+    ((syncCSA c gen s).err = "" → ClaimMetaOf s.cm en (syncCSA c gen s).st.cm) :=
+  syncCSA_claim_meta c gen s cs h
+
+/-- **XR → claim, labels and annotations, every world** (server-side syncer): whatever third
+parties write between the calls, whichever call fails, however stale the reads - every
+claim write carries the name, labels and annotations of the claim AS READ, the external
+name being that of the XR AS READ when it has one. -/
+theorem meta_xr_to_claim_every_world (c : Cfg) (gen : String) (w : World) (rcm : KObj) (rcmV : Nat)
+    (rxr : Option KObj) (s : Srv) (cs : AL J) (hcs : rcm.spec = some (.obj cs))
+    (wr : Write) (h : wr ∈ (syncSSAW c gen w rcm rcmV rxr s).writes) (hx : wr.isXR = false) :
+    ClaimMetaOf rcm (extName rxr) wr.body :=
+  syncSSAW_claim_meta c gen w rcm rcmV rxr s cs hcs wr h hx
+
+example :
+    let o := syncSSA wcfg "g" exampleState
+    o.st.cm.labels = exampleState.cm.labels ∧
+    alookup extNameKey o.st.cm.anns = some "xr-ext" ∧
+    alookup "kubectl.kubernetes.io/last-applied-configuration" o.st.cm.anns = some "{}" := by decide
+
+/-- **Reserved labels / annotations never cross and are never disturbed, server-side
+syncer**: the apply body carries none, and a reserved label or annotation of the stored XR
+(e.g. one a user or another controller put there) has the same value - or absence - after the
+sync, provided the claim controller's previously applied configuration carried none
+(`prev_clean_every_history`: it never does). -/
+theorem reserved_meta_untouched (c : Cfg) (gen : String) (s : St) (cs : AL J) (x : KObj) (k : String)
+    (h : s.cm.spec = some (.obj cs)) (hx : s.xr = some x) (hk : reserved k = true) (hp : PrevClean s.prev) :
+    alookup k (ssaPatch c gen s.cm s.xr cs).labels = none ∧ alookup k (ssaPatch c gen s.cm s.xr cs).anns = none ∧
+    ∃ y, (syncSSA c gen s).st.xr = some y ∧
+      alookup k y.labels = alookup k x.labels ∧ alookup k y.anns = alookup k x.anns := by
+  have hl := ssaPatch_reserved_labels c gen s.cm s.xr cs k hk
+  have ha := ssaPatch_reserved_anns c gen s.cm s.xr cs k hk
+  refine ⟨hl, ha, _, syncSSA_xr c gen s cs h, ?_, ?_⟩
+  · rw [hx] at hl ⊢
+    exact applySSA_labels_untouched x s.prev _ k hl (fun q hq => (hp q hq k hk).1)
+  · rw [hx] at ha ⊢
+    exact applySSA_anns_untouched x s.prev _ k ha (fun q hq => (hp q hq k hk).2)
+
+/-- the same for the client-side syncer: the XR its Apply leaves in the store has every
+reserved label and annotation of the XR it found, unchanged -/
+theorem reserved_meta_untouched_csa (c : Cfg) (gen : String) (s : St) (cs : AL J) (x : KObj) (k : String)
+    (hx : s.xr = some x) (hk : reserved k = true)
+    (hcl : NoDup s.cm.labels) (hca : NoDup s.cm.anns) (hxl : NoDup x.labels) (hxa : NoDup x.anns) :
+    alookup k (csaApplied c gen s cs).labels = alookup k x.labels ∧
+    alookup k (csaApplied c gen s cs).anns = alookup k x.anns := by
+  have h1 : k ≠ Xp.Gen.labelKeyClaimNamespace := by intro e; subst e; revert hk; decide
+  have h2 : k ≠ Xp.Gen.labelKeyClaimName := by intro e; subst e; revert hk; decide
+  have h3 : k ≠ extNameKey := by intro e; subst e; revert hk; decide
+  obtain ⟨dl, da⟩ := claim_to_xr_meta_csa c gen s.cm s.xr cs k hcl hca
+  simp only [hx, Option.getD_some, h1, h2, h3, hk, if_true, if_false, false_and] at dl da
+  unfold csaApplied
+  simp only [hx]
+  split
+  · exact ⟨rfl, rfl⟩
+  · refine ⟨?_, ?_⟩
+    · simp only [mergePatchXR]
+      have hnd : NoDup (csaDesired c gen s.cm (some x) cs).labels := by
+        simp only [csaDesired, Option.getD_some]
+        exact NoDup_addAll _ _ (NoDup_addAll _ _ hxl)
+      rw [alookup_addAll _ _ _ hnd, dl]
+      cases alookup k x.labels <;> rfl
+    · simp only [mergePatchXR, KObj.anns]
+      cases hda : (csaDesired c gen s.cm (some x) cs).annotations with
+      | none => rfl
+      | some m =>
+        have hnd : NoDup m := by
+          have : NoDup ((csaDesired c gen s.cm (some x) cs).anns) := by
+            simp only [csaDesired, Option.getD_some, KObj.anns]
+            have hbase : NoDup ((addAnn x.annotations (s.cm.annotations.map withoutReserved)).getD []) := by
+              cases hxa' : x.annotations with
+              | none =>
+                cases hca' : s.cm.annotations with
+                | none => simp [addAnn, NoDup, akeys]
+                | some a =>
+                  simp only [addAnn, Option.map_some, Option.getD_some]
+                  exact NoDup_filter _ a (by simpa [KObj.anns, hca'] using hca)
+              | some xa =>
+                simp only [addAnn, Option.getD_some]
+                exact NoDup_addAll _ _ (by simpa [KObj.anns, hxa'] using hxa)
+            split
+            · exact NoDup_setAnn _ _ _ hbase
+            · exact hbase
+          simpa [KObj.anns, hda] using this
+        have da' : alookup k m = alookup k x.anns := by simpa [KObj.anns, hda] using da
+        simp only [Option.getD_some]
+        rw [alookup_addAll _ _ _ hnd, da']
+        simp only [KObj.anns]
+        cases alookup k (x.annotations.getD []) <;> rfl
+
+/-- `PrevClean` (the hypothesis of `reserved_meta_untouched`) holds along every history of
+syncs of either syncer, claim edits, XR-controller writes and upgrades. -/
+theorem prev_clean_every_history (c : Cfg) (s0 : St) (ops : List Op) (hp : s0.prev = none) :
+    PrevClean (run c s0 ops).prev :=
+  run_prevClean c ops s0 (fun q hq => by rw [hp] at hq; cases hq)
+
+example :
+    let s : St := { exampleState with
+      xr := exampleState.xr.map fun x => { x with labels := [("topology.kubernetes.io/zone", "z1"), ("team", "old")] }
+      prev := some { name := "my-claim-x", labels := [("team", "old")] } }
+    PrevClean s.prev ∧
+    (alookup "topology.kubernetes.io/zone" ((syncSSA wcfg "g" s).st.xr.getD { name := "" }).labels = some "z1") ∧
+    (alookup "team" ((syncSSA wcfg "g" s).st.xr.getD { name := "" }).labels = some "a") := by
+  refine ⟨?_, by decide, by decide⟩
+  intro q hq k hk
+  cases hq
+  refine ⟨?_, rfl⟩
+  by_cases h : k = "team"
+  · subst h; revert hk; decide
+  · simp [alookup, Ne.symm h]
+
+/-! ### mergo on lists -/
+
+/-- **Lists (of scalars or of maps) are atoms for both merges**: `merge` passes mergo no
+slice option (`skeleton_refs`), so a list of the XR replaces the claim's value wholesale
+under WithOverride (status) and otherwise only fills an absent or empty claim value (spec);
+lists of maps are never merged element-wise. -/
+theorem merge_lists_are_atoms (dst : Option J) (l : List J) :
+    mergeV true dst (.arr l) = some (.arr l) ∧
+    mergeV false dst (.arr l) =
+      (match dst with
+       | none => some (.arr l)
+       | some d => if isEmptyJ d then some (.arr l) else some d) := by
+  constructor
+  · simp [mergeV]
+  · cases dst <;> simp [mergeV]
+
+example :
+    jeqv (.obj (mergeF true [("ports", .arr [.obj [("n", .num 1), ("p", .str "a")]])] [("ports", .arr [.obj [("n", .num 2)]])]))
+      (.obj [("ports", .arr [.obj [("n", .num 2)]])]) = true ∧
+    jeqv (.obj (mergeF false [("ports", .arr [.obj [("n", .num 1)]])] [("ports", .arr [.obj [("n", .num 2)]]), ("tags", .arr [.str "x"])]))
+      (.obj [("ports", .arr [.obj [("n", .num 1)]]), ("tags", .arr [.str "x"])]) = true := by decide
+
+/-! ### the managed-fields upgrader (CSA → SSA migration) -/
+
+/-- The JSON patches of `Upgrade` in the current tree write nothing but
+metadata.managedFields and metadata.resourceVersion: no label, annotation, spec or status
+field of the XR. -/
+theorem upgrade_patches_only_bookkeeping :
+    upgradePaths ≠ [] ∧ ∀ p ∈ upgradePaths, bookkeepingPath p = true := by decide
+
+/-- The three cases of `Upgrade`, for every list of managers in every order: the claim
+manager present and before-first-apply absent - nothing is sent; both present - exactly the
+LAST before-first-apply entry is removed; the claim manager absent - all managers are
+cleared. -/
+theorem upgrade_plan_cases (ssa : String) (mf : List String) :
+    (ssa ∈ mf → bfaManager ∉ mf → upgradePlan true ssa mf = .nothing) ∧
+    (ssa ∉ mf → upgradePlan true ssa mf = .clearAll) ∧
+    (ssa ∈ mf → bfaManager ∈ mf →
+      ∃ j, upgradePlan true ssa mf = .removeAt j ∧ mf[j]? = some bfaManager ∧
+        ∀ j', j < j' → mf[j']? ≠ some bfaManager) := by
+  obtain ⟨h1, h2, _, h4⟩ := scan_spec ssa mf 0 {}
+  simp only [Bool.false_eq_true, false_or] at h1 h2
+  refine ⟨?_, ?_, ?_⟩
+  · intro hs hb
+    have e1 : (scan ssa mf 0 {}).foundSSA = true := h1.mpr hs
+    have e2 : (scan ssa mf 0 {}).foundBFA = false := by
+      cases hf : (scan ssa mf 0 {}).foundBFA with
+      | false => rfl
+      | true => exact absurd (h2.mp hf) hb
+    simp [upgradePlan, e1, e2]
+  · intro hs
+    have e1 : (scan ssa mf 0 {}).foundSSA = false := by
+      cases hf : (scan ssa mf 0 {}).foundSSA with
+      | false => rfl
+      | true => exact absurd (h1.mp hf) hs
+    simp [upgradePlan, e1]
+  · intro hs hb
+    have e1 : (scan ssa mf 0 {}).foundSSA = true := h1.mpr hs
+    have e2 : (scan ssa mf 0 {}).foundBFA = true := h2.mpr hb
+    obtain ⟨j, hj1, hj2, hj3⟩ := h4 hb
+    refine ⟨j, ?_, hj2, hj3⟩
+    simp [upgradePlan, e1, e2, hj1]
+
+/-- **The upgrade never drops the claim controller's own manager entry** (so the set of
+fields server-side apply treats as previously applied by the claim controller - what
+`xr_owned_preserved` and `reserved_meta_untouched` reason about - survives every upgrade),
+removes nothing but one before-first-apply entry when the claim manager is present, and
+once the claim manager is alone with no before-first-apply entry it is a no-op without an
+API call. -/
+theorem upgrade_keeps_claim_manager (ssa : String) (mf : List String) (inj : Option String)
+    (hne : ssa ≠ bfaManager) (hs : ssa ∈ mf) :
+    ssa ∈ (upgradeRun true ssa mf inj).managers ∧
+    ((upgradeRun true ssa mf inj).managers = mf ∨
+      (bfaManager ∈ mf ∧ inj = none ∧ mf.Perm (bfaManager :: (upgradeRun true ssa mf inj).managers))) ∧
+    (bfaManager ∉ mf → upgradeRun true ssa mf inj = { managers := mf, calls := 0, err := "" }) := by
+  obtain ⟨c1, _, c3⟩ := upgrade_plan_cases ssa mf
+  by_cases hb : bfaManager ∈ mf
+  · obtain ⟨j, hj, hjb, _⟩ := c3 hs hb
+    cases inj with
+    | some e =>
+      have : (upgradeRun true ssa mf (some e)).managers = mf := by simp [upgradeRun, hj]
+      exact ⟨by rw [this]; exact hs, Or.inl this, fun h => absurd hb h⟩
+    | none =>
+      have hm : (upgradeRun true ssa mf none).managers = mf.eraseIdx j := by simp [upgradeRun, hj, applyUpg]
+      have hperm := perm_cons_eraseIdx bfaManager mf j hjb
+      refine ⟨?_, Or.inr ⟨hb, rfl, by rw [hm]; exact hperm⟩, fun h => absurd hb h⟩
+      rw [hm]
+      have := (hperm.mem_iff (a := ssa)).mp hs
+      simp only [List.mem_cons] at this
+      rcases this with h | h
+      · exact absurd h hne
+      · exact h
+  · have hn := c1 hs hb
+    have : upgradeRun true ssa mf inj = { managers := mf, calls := 0, err := "" } := by simp [upgradeRun, hn]
+    exact ⟨by rw [this]; exact hs, Or.inl (by rw [this]), fun _ => this⟩
+
+/-- Every run of the upgrader makes at most one API call; a failure of that call of any
+class other than NotFound is returned (never swallowed) and nothing changed. -/
+theorem upgrade_error_not_swallowed (created : Bool) (ssa : String) (mf : List String) (e : String)
+    (he : e ≠ "notFound") :
+    (upgradeRun created ssa mf (some e)).managers = mf ∧ (upgradeRun created ssa mf (some e)).calls ≤ 1 ∧
+    ((upgradeRun created ssa mf (some e)).calls = 1 → (upgradeRun created ssa mf (some e)).err = apiErr e) := by
+  unfold upgradeRun
+  have hf : (e == "notFound") = false := by simp [he]
+  split <;> simp [hf]
+
+/-- the migration as the comment of `Upgrade` tells it: managers of client-side apply only →
+cleared; after the claim controller's first apply (claim manager + before-first-apply) →
+before-first-apply removed; then nothing more -/
+example :
+    (upgradeRun true Xp.Gen.fieldOwnerXR ["crossplane", "apiextensions.crossplane.io/composite"] none).managers = [] ∧
+    (upgradeRun true Xp.Gen.fieldOwnerXR [Xp.Gen.fieldOwnerXR, "before-first-apply"] none).managers = [Xp.Gen.fieldOwnerXR] ∧
+    (upgradeRun true Xp.Gen.fieldOwnerXR [Xp.Gen.fieldOwnerXR] none).calls = 0 ∧
+    (upgradeRun true Xp.Gen.fieldOwnerXR ["before-first-apply", "x", "before-first-apply", Xp.Gen.fieldOwnerXR] none).managers
+      = ["before-first-apply", "x", Xp.Gen.fieldOwnerXR] ∧
+    Xp.Gen.fieldOwnerXR ≠ bfaManager := by decide
+
 
 end Xp.C07
